@@ -15,10 +15,12 @@ package main
 //   the property speaks about satisfaction only.
 //
 // CLASSIFICATION of a failure is causal: a reference re-implementation of partial.go over the public API
-// (vh/partialref.go) must first reproduce the implementation's residual exactly; the failure is then attributed
-// to the smallest set of single repairs of that reference that makes every completion of the case pass.  The
-// repair names are the finding classes (stale-residual-and|or|if, tainted-container-<op>, tainted-record-<op>,
-// isin-eager-rhs-error).  A failure that no repair explains is `unexplained-…` and hence a VIOLATION.
+// (vh/partialref.go) must first reproduce the implementation's residual exactly — in one of its base configurations
+// (vh.BaseCfgs: the code as repaired, the repaired code with one defect family reverted, the code before any repair);
+// the failure is then attributed to the smallest set of single repairs on top of that base which makes every
+// completion of the case pass.  The repair names are the finding classes (stale-residual-and|or|if,
+// tainted-container-<op>, tainted-record-<op>, isin-eager-rhs-error; all "fixed" in known_findings, so a returning
+// defect is a VIOLATION that names it).  A failure that no repair explains is `unexplained-…` and hence a VIOLATION.
 //
 // CORRESPONDENCE: op `partial` — the Lean model's residual (Model/Partial.lean) against the implementation's
 // residual AST, compared by the driver after canonical rendering (partialError messages masked).  White-box:
@@ -264,7 +266,8 @@ type c06Outcome struct {
 	exhaustiv bool
 }
 
-// c06Explain finds the smallest set of single repairs of the reference evaluator under which every combo passes.
+// c06Explain finds the smallest set of single repairs of the reference evaluator (on top of the base configuration
+// that reproduces the implementation) under which every combo passes.
 func c06Explain(cs c06Case, cbs []combo, base *vh.Ref) ([]string, bool) {
 	cands := map[string]bool{}
 	for k := range base.Events {
@@ -276,7 +279,7 @@ func c06Explain(cs c06Case, cbs []combo, base *vh.Ref) ([]string, bool) {
 		for k := range cands {
 			names = append(names, k)
 		}
-		r := vh.NewRef(vh.CfgWith(names), cs.t.Env)
+		r := vh.NewRef(base.Cfg.With(names), cs.t.Env)
 		r.PartialPolicy(cs.p)
 		grew := false
 		for k := range r.Events {
@@ -295,7 +298,7 @@ func c06Explain(cs c06Case, cbs []combo, base *vh.Ref) ([]string, bool) {
 	}
 	sort.Strings(names)
 	for _, s := range vh.Subsets(names) {
-		r := vh.NewRef(vh.CfgWith(s), cs.t.Env)
+		r := vh.NewRef(base.Cfg.With(s), cs.t.Env)
 		var res *ast.Policy
 		var keep bool
 		if p := vh.Protect(func() { res, keep = r.PartialPolicy(cs.p) }); p != nil {
@@ -306,6 +309,24 @@ func c06Explain(cs c06Case, cbs []combo, base *vh.Ref) ([]string, bool) {
 		}
 	}
 	return nil, false
+}
+
+// c06BaseRef finds the base configuration of the reference evaluator that reproduces the implementation's result on
+// this case (nil: none does = white-box drift).
+func c06BaseRef(cs c06Case, res *ast.Policy, keep bool) *vh.Ref {
+	want := vh.MaskedPolicyJSON(res, keep)
+	for _, cfg := range vh.BaseCfgs() {
+		ref := vh.NewRef(cfg, cs.t.Env)
+		var rres *ast.Policy
+		var rkeep bool
+		if p := vh.Protect(func() { rres, rkeep = ref.PartialPolicy(cs.p) }); p != nil {
+			continue
+		}
+		if vh.MaskedPolicyJSON(rres, rkeep) == want {
+			return ref
+		}
+	}
+	return nil
 }
 
 func c06Input(cs c06Case, f *c06Failure) map[string]any {
@@ -329,21 +350,15 @@ func c06Run(c *vh.Ctx, g *vh.Gen, cs c06Case, perVar, limit int) c06Outcome {
 		out.failed = true
 		return out
 	}
-	if os.Getenv("VH_C06_ALLFIXED") != "" {
-		// experiment (not part of any check): judge the reference evaluator with EVERY proposed repair applied
-		// instead of the implementation — validates that the proposed patches restore the property
-		fr := vh.NewRef(vh.RefCfg{StaleAnd: true, StaleOr: true, StaleIf: true, IsInLazy: true, TaintAll: true}, cs.t.Env)
-		res, keep = fr.PartialPolicy(cs.p)
-	}
 	out.keep, out.res = keep, res
-	// reference (no repairs) must reproduce the implementation
-	ref := vh.NewRef(vh.RefCfg{}, cs.t.Env)
-	var rres *ast.Policy
-	var rkeep bool
-	if p := vh.Protect(func() { rres, rkeep = ref.PartialPolicy(cs.p) }); p != nil {
+	// the reference evaluator must reproduce the implementation in one of its base configurations (repaired code first)
+	ref := c06BaseRef(cs, res, keep)
+	if ref == nil {
 		out.goDrift = true
-	} else if vh.MaskedPolicyJSON(rres, rkeep) != vh.MaskedPolicyJSON(res, keep) {
-		out.goDrift = true
+		ref = vh.NewRef(vh.RepairedCfg(), cs.t.Env)
+		vh.Protect(func() { ref.PartialPolicy(cs.p) })
+	} else if ref.Cfg.String() != vh.RepairedCfg().String() {
+		c.Dist("reference-base:" + ref.Cfg.String()) // the implementation behaves like the code BEFORE a repair on this case
 	}
 	out.events = ref.Events
 	if out.goDrift {
@@ -515,6 +530,9 @@ func c06Table() []c06Case {
 	add("tainted-record-sound", kr, append(append(both("context.r.a == 1"), both("context.r has a")...), both("context has r && context.r.a < 2")...)...)
 	ke := tableTemplate(nil, nil, nil, rec("es", types.NewSet(V("x")), "e", V("x")), map[types.String]vh.Ty{"x": vh.TEntity})
 	add("tainted-in", ke, append(append(both("principal in context.es"), both("principal is User in context.es")...), both("context.e in Group::\"a\"")...)...)
+	add("tainted-embedded-if", kr, append(both("(if context.r.a == 1 then context.r else {a: 2}) == {a: 1}"), both("(if context.r.a == 1 then {a: 2} else context.r) == {a: 1}")...)...)
+	pe := tableTemplate(V("p"), nil, nil, rec("es", types.NewSet(V("x"))), map[types.String]vh.Ty{"p": vh.TEntity, "x": vh.TEntity})
+	add("tainted-embedded-isin", pe, append(both("principal is User in context.es"), both("principal is User in context.es || principal is Doc in context.es")...)...)
 	pv := tableTemplate(V("p"), nil, nil, rec("n", types.Long(1)), map[types.String]vh.Ty{"p": vh.TEntity})
 	add("isin-eager", pv, append(append(both("!(principal is Doc in context.missing)"), both("principal is User in context.missing")...), both("principal is Doc in context.missing || context.n == 1")...)...)
 	add("principal-unknown", pv, "permit(principal in Group::\"a\", action, resource) when { principal.n > 1 };", "forbid(principal == User::\"b\", action == Action::\"a\", resource) unless { principal has n && principal.n == 0 };",
@@ -626,8 +644,8 @@ func runC06(c *vh.Ctx) {
 		}
 	}
 	c.Res.Notes = append(c.Res.Notes,
-		fmt.Sprintf("cases=%d (table %d, random %d); no known-unsound situation exercised (reference-evaluator instrumentation)=%d of which failing=%d; known-unsound situations exercised=%d of which failing=%d", len(cases), nTable, len(cases)-nTable, inside, insideFailing, outside, outsideFailing),
-		"known-unsound situations exercised (cases): "+fmtCounts(eventCases),
+		fmt.Sprintf("cases=%d (table %d, random %d); no situation of a repaired defect family exercised (reference-evaluator instrumentation)=%d of which failing=%d; such situations exercised=%d of which failing=%d", len(cases), nTable, len(cases)-nTable, inside, insideFailing, outside, outsideFailing),
+		"situations of the repaired defect families exercised (cases): "+fmtCounts(eventCases),
 		"failing cases by class: "+fmtCounts(failingByClass))
 
 	_, model, err := c.Correspond(b)
